@@ -10,11 +10,12 @@ def run(tier, seed):
     q = tier == "quick"
     try:
         return common.run_enum(PID, tier, seed, "MC_Import", "import", ["Import_mc.cfg", "Import_q_gen.cfg"] if q else ["Import_mc.cfg", "Import_q_gen.cfg", "Import_t_gen.cfg", "Import_t2_gen.cfg"],
-            [("Import_w_memo.cfg", "memo_after_recursion"), ("Import_w_unpruned.cfg", "unpruned:colorspace")],
+            [("Import_w_memo.cfg", "memo_after_recursion"), ("Import_w_unpruned.cfg", "unpruned:colorspace"), ("Import_w_streamcache.cfg", "clone_reads_stream_cache")],
             actions=["Choose", "Step"],
             rule="every source graph TLC enumerates (2 objects quick / 3 thorough with every edge set incl. self-loops and cycles, every set of objects referenced from the "
                  "page's extra entries, resources of the categories ExtGState / Font / ColorSpace present or not and named by the operations or not) is written as a source "
-                 "document; its page is imported with PageBuilder::clone_page through Importer, built, reloaded; checked: termination (a runaway recursion ends the harness "
+                 "document (the form XObject stored hex-encoded); with and without a prior inspection of the page through the cached source document (resources loaded, form and page "
+                 "operations decoded), its page is imported with PageBuilder::clone_page through Importer, built, reloaded; checked: termination (a runaway recursion ends the harness "
                  "process and is reported), closure (every reference of every object of the new document resolves), single copy and exact copy set (marker objects counted), "
                  "page attributes and operation sequence equal, every used resource present with equal content, unused resources pruned; non-trivial = cyclic graph or a used resource",
             assumptions=["graph objects sit behind the /Font resource and the page's extra entries (plain deep clone); ExtGState and ColorSpace resources are typed leaf values",
